@@ -8,6 +8,8 @@ import pulsarbat as pb
 
 from .. import exact, gen, probes, monitors
 
+from ..replay import wl_R
+
 RULE = ("radio-signal classes x nchan {1..9, 16, 64, 2048} x alignment x center_freq 1e6..1e11 Hz x chan_bw 1 Hz..1 GHz in mixed "
         "units; every completed construction is compared with the exact band model (labels, spacing, min/max, bandwidth); every "
         "frequency / combined time+frequency / trailing-axis / Stokes selection (nesting depth <= 5) is compared with the selected "
@@ -207,9 +209,15 @@ def wl_stokes(ctx, idx, rng):
     bad, exc = ctx.call("stokes_select", lambda: sig["X"], expect=KeyError, where="sig['X']")
 
 
+def install_universal(ctx):
+    monitors.ConstructionMonitor(on_built=on_built_factory(ctx)).install()
+    monitors.GetitemMonitor(ctx, check_time=False, check_freq=True).install()
+    return probes.detach_all
+
+
 def workloads(ctx):
     q = ctx.tier == "quick"
-    return [
+    return [("R", 1, wl_R), 
         ("construct", 1650 if q else 66000, wl_construct),
         ("freqslice", 1500 if q else 60000, wl_freqslice),
         ("stokes", 330 if q else 13200, wl_stokes),
